@@ -53,6 +53,12 @@ FLAVOUR = {
 }
 
 
+_GENERIC = ("a particular interleaving, a crash or fault at a particular point, a multi-step sequence of operations, an unusual input, "
+            "or two cooperating sites that each look fine alone - your choice; prefer something a reviewer would wave through and a "
+            "routine test run would not touch.")
+FLAVOUR["d"] = {("C%02d" % i): _GENERIC for i in range(1, 21)}
+
+
 def main():
     pid, rnd = sys.argv[1], sys.argv[2]
     props = {}
